@@ -134,7 +134,9 @@ Lemma on_event_frame b s i o w err :
   (snd (on_event s i o w err) = [] \/ exists cb e n, snd (on_event s i o w err) = [IInvoke cb e n false]).
 Proof.
   intros Hp Ho. unfold on_event.
-  set (o1 := if w then with_wr o (o_wr o) (o_evW o) false else with_rd o (o_rd o) (o_evR o) false).
+  cbv zeta.
+  set (rg := if o_evR o || o_evW o then o_reg o else false).
+  set (o1 := if w then with_wr o (o_wr o) (o_evW o) rg else with_rd o (o_rd o) (o_evR o) rg).
   assert (Ho1 : okp o1) by (unfold o1; destruct w; apply (okp_same o); auto).
   pose proof (frame_set_obj b s i o1 Hp Ho1) as Hf.
   destruct (if w then o_wr o else o_rd o) as [p|]; [|split; [exact Hf|left; reflexivity]].
